@@ -5,6 +5,7 @@ set_option linter.unusedSimpArgs false
 set_option linter.unusedVariables false
 
 namespace HcipyVerif.FourierSwitch
+open Spec
 
 /-! ## selection -/
 
@@ -88,6 +89,22 @@ theorem compute_spec {X M B R : Type} (K : MftKern X M B R) (p : CPrec) (c : Mft
       by_cases hq : q = p
       · subst hq; simp
       · simp [hq]
+
+/-- the check the driver runs is the invariant of the proofs -/
+theorem keyedB_iff {X M B R : Type} [BEq M] [LawfulBEq M] (K : MftKern X M B R) (c : MftCache M B) :
+    keyedB K c = true ↔ Keyed K c := by
+  unfold keyedB Keyed
+  cases hm : c.mats with
+  | none => simp
+  | some qm =>
+    obtain ⟨q, m⟩ := qm
+    constructor
+    · intro h q' m' he
+      simp only [Option.some.injEq, Prod.mk.injEq] at he
+      obtain ⟨rfl, rfl⟩ := he
+      simpa using h
+    · intro h
+      simpa using h q m rfl
 
 theorem keyed_empty {X M B R : Type} (K : MftKern X M B R) : Keyed K ({} : MftCache M B) := by
   intro q m h; simp at h
